@@ -598,7 +598,6 @@ def _query_points(f, rng):
         lo, hi = int(p.min()), int(p.max())
         g = np.arange(2 * lo - 1, 2 * hi + 2) / 2.0
         return np.array([(a, b) for a in g for b in g])
-    from vmon.gen.c15_polys import float_case  # noqa: F401
     L = len(p)
     xmin, xmax, ymin, ymax = p[:, 0].min(), p[:, 0].max(), p[:, 1].min(), p[:, 1].max()
     wx, wy = (xmax - xmin) or 1.0, (ymax - ymin) or 1.0
@@ -747,8 +746,6 @@ def run_file(ctx, i):
             h = max(1, k // 2)
             for pf in created[:h]:
                 pf.save(str(path))
-            if bad_k is None or bad_k >= h:
-                pass
             for pf in created[h:]:
                 pf.save(str(path))
     except Exception as exc:
@@ -835,7 +832,6 @@ def run_file(ctx, i):
             ctx.violation("no_exception", dict(desc, exc=repr(exc), phase=f"fileid={j}", name=nm),
                           finding=MECH_EQUALS if predicted else None,
                           message=f"PolygonFilter(filename, fileid={j}) raised {exc!r}")
-    # one past the end must be an IndexError (that is how import_all terminates)
     PolygonFilter.clear_all_filters()
     try:
         path.unlink()
